@@ -5,7 +5,7 @@ import sys
 
 from harness import common, coretok, corpus, gen_compose, propkit, sexp, unparsecorr
 
-VFILES = ["theories/Unparse.v", "theories/Parse.v", "theories/ParseProof.v"]
+VFILES = ["theories/Unparse.v", "theories/Parse.v", "theories/ParseProof.v", "theories/ParseTie.v"]
 
 
 def core_tree(rng, depth):
@@ -166,6 +166,28 @@ def run(chk, build, replay=None):
             chk.add_broken("correspondence", "Parse.parse_core does not read back a core expression",
                            __import__("json").dumps({"expr_source": _src(e), "answer": a}))
     chk.coverage["core_check"] = cc
+    # 3b. Parse.norm is CPython's tokenizer on the unparser's text: tokens of the REAL text = norm (tokens of the model)
+    text_of = {id(e): t for e, t in zip(exprs, texts)}
+    tl = []
+    for e in core_sample:
+        t = text_of.get(id(e))
+        if t is None:
+            continue
+        try:
+            tl.append((e, t, "(ok (%s))" % " ".join(coretok.tokens(t)), "(unparse-toks %s)" % sexp.expr(e)))
+        except (coretok.NotTokenisable, sexp.Unserialisable, RecursionError, SyntaxError, ValueError, tokenize_error()):
+            continue
+    tans = common.model_eval([l for _, _, _, l in tl])
+    tk = {"agree": 0, "disagree": 0}
+    for (e, t, want, _), a in zip(tl, tans):
+        if a == want:
+            tk["agree"] += 1
+        else:
+            tk["disagree"] += 1
+            if tk["disagree"] <= 3:
+                chk.add_broken("correspondence", "Parse.norm (Unparse.unparse_toks e) differs from CPython's tokens of the unparser's text",
+                               __import__("json").dumps({"text": t[:400], "model": a[:400], "cpython": want[:400]}))
+    chk.coverage["tokens_model_vs_cpython_tokenizer"] = tk
     # 4. the parser model is CPython's parser: tokens (CPython's tokenizer) of the outputs and of library expressions
     plines = []
     for e, t in zip(exprs, texts):
@@ -191,6 +213,11 @@ def run(chk, build, replay=None):
                                __import__("json").dumps({"text": t[:400], "model": a[:300], "cpython": want[:300]}))
     chk.coverage["parser_model_vs_cpython"] = pc
     chk.samples = [{"text": t} for t in texts[:5] if t]
+
+
+def tokenize_error():
+    import tokenize
+    return tokenize.TokenError
 
 
 def _src(e):
